@@ -537,7 +537,9 @@ def array_attr(eng, st, base, a, attr):
         if len(a.shape) == 1:
             return a
         if len(a.shape) == 2:
-            return ArrV((a.shape[1], a.shape[0]), lambda ix: a.fn((ix[1], ix[0])), a.dtype, bufs=a.bufs)
+            r = ArrV((a.shape[1], a.shape[0]), lambda ix: a.fn((ix[1], ix[0])), a.dtype, bufs=a.bufs)
+            r.noncontig = not getattr(a, "noncontig", False)  # the transpose of a C-contiguous 2-D array is not
+            return r
         raise Unsupported(".T of >2-D")
     if attr == "real":
         return np_map(eng, st, lambda x: V.cx_of(x).re if isinstance(x, Cx) else x, a, "real" if a.dtype == "cx" else a.dtype)
@@ -684,9 +686,18 @@ def install(eng):
             return hook(eng, st, ref, xd, k)
         return ref
 
+    def f_ascontig(eng, st, x, dtype=None):
+        xd = eng.deref(st, x)
+        if is_arr(xd) and getattr(xd, "noncontig", False):
+            # a non-contiguous view is always copied
+            k = _dtype_kind(dtype)
+            r = _astype(eng, st, xd, dtype) if (k and k != xd.dtype) else ArrV(xd.shape, xd.fn, xd.dtype)
+            return eng.alloc(st, ArrV(r.shape, r.fn, r.dtype))
+        return f_asarray(eng, st, x, dtype=dtype)
+
     reg("asarray", f_asarray)
     reg("asanyarray", f_asarray)
-    reg("ascontiguousarray", f_asarray)
+    reg("ascontiguousarray", f_ascontig)
 
     def f_array(eng, st, x, dtype=None, copy=True):
         xd = eng.deref(st, x)
